@@ -1280,6 +1280,21 @@ class Interp:
                     return dict(args[0])
             if name == "range" and conc:
                 return list(range(*args))
+            if name == "range" and len(args) == 2 and not kwargs:
+                # symbolic bounds whose difference is a known number: start, start+1, ...
+                try:
+                    n = self.binop(ast.Sub(), args[1], args[0], node)
+                except Undecided:
+                    n = None
+                n = getattr(n, "const_value", lambda: n)() if n is not None and not isinstance(n, (int, Fraction)) else n
+                if isinstance(n, Fraction) and n.denominator == 1:
+                    n = int(n)
+                if isinstance(n, int) and not isinstance(n, bool) and 0 <= n <= 64:
+                    out, cur = [], args[0]
+                    for _ in range(n):
+                        out.append(cur)
+                        cur = self.binop(ast.Add(), cur, 1, node)
+                    return out
             if name == "enumerate" and isinstance(args[0], (list, tuple)):
                 st = kwargs.get("start", args[1] if len(args) > 1 else 0)
                 if isinstance(st, int):
